@@ -258,6 +258,57 @@ Definition spec_oc_slice (t : table) (now : Z) (ru : rule) (vs : list rec) (judg
                                                     | None => true
                                                     end) vs)))).
 
+(* Create from MAP values with an OnConflict rule: the map names the columns it gives.  A map without a
+   (stored) key is inserted: the named columns hold the map's values, every other data column stays empty,
+   no tracked time is filled in.  A map whose key is stored is treated as the rule defines; "update all" means
+   all the columns the map names (created_at aside, tracked update time aside): a data column it does not name
+   keeps the stored value, and with no column to update nothing is written.  [ks] = the columns of the call
+   (a slice of maps: the union of the keys; a map lacking one gives NULL). *)
+Fixpoint mapplies (ru : rule) (ks : list col) (old : rec) : bool :=
+  match ru with
+  | RNothing => false
+  | RUpdates _ => true
+  | RAll => existsb (fun c => mem_col c ks) (data_cols ++ [CUat])
+  | RWhere k r => (r_age old <? k) && mapplies r ks old
+  | RTarget _ r => mapplies r ks old
+  end.
+Fixpoint mcoll_ok (ru : rule) (ks : list col) (ex old row : rec) : bool :=
+  match ru with
+  | RNothing => rec_eqb row old
+  | RUpdates cols =>
+      forallb (fun c => val_eqb (get_col c row)
+                          (if mem_col c cols then get_col c ex else get_col c old)) all_cols
+  | RAll =>
+      forallb (fun c => val_eqb (get_col c row)
+                          (if mem_col c ks then get_col c ex else get_col c old)) data_cols
+      && same_on [CId; CCat] row old
+      && (mapplies RAll ks old || rec_eqb row old)
+  | RWhere k r => if r_age old <? k then mcoll_ok r ks ex old row else rec_eqb row old
+  | RTarget _ r => mcoll_ok r ks ex old row
+  end.
+Definition spec_oc_maps (t : table) (ru : rule) (ms : list (list (col * val))) (judge_ra : bool) (o : obs) : bool :=
+  let ks := map_keys ms in
+  let exs := map map_rec ms in
+  let keyed := filter (fun v => negb (r_id v =? 0)) exs in
+  let zero := filter (fun v => r_id v =? 0) exs in
+  let kids := map r_id keyed in
+  let news := filter (fun r => negb (has_key t (r_id r)) && negb (existsb (Z.eqb (r_id r)) kids)) (o_tbl o) in
+  let ins_cols := data_cols ++ filter (fun c => mem_col c ks) [CCat; CUat] in
+  negb (o_err o) && (o_writes o =? 1)
+  && forallb (fun ex =>
+       match lookup t (r_id ex), lookup (o_tbl o) (r_id ex) with
+       | None, Some row => same_on ins_cols row ex
+       | Some old, Some row => mcoll_ok ru ks ex old row
+       | _, None => false
+       end) keyed
+  && all2b (fun ex row => same_on ins_cols row ex && (0 <? r_id row)) zero news
+  && tbl_eqb (without_all (kids ++ map r_id news) t) (without_all (kids ++ map r_id news) (o_tbl o))
+  && (negb judge_ra ||
+      (o_ra o =? Z.of_nat (length (filter (fun ex => match lookup t (r_id ex) with
+                                                     | Some old => negb (r_id ex =? 0) && mapplies ru ks old
+                                                     | None => true
+                                                     end) exs)))).
+
 (* ---- a model type with a COMPOSITE primary key (id, region): the key is the PAIR ------------------------ *)
 Definition same_key (a b : rec) : bool := (r_id a =? r_id b) && String.eqb (r_name a) (r_name b).
 Definition cothers (v : rec) (t : table) : table := filter (fun r => negb (same_key v r)) t.
@@ -323,6 +374,7 @@ Definition spec_step (t : table) (now : Z) (ch : list cel) (f : fin) (o : obs) :
   | FCCreateOC ru v => spec_cupsert t ru v o
   | FCFoc id region a q => spec_cfoc t id region a q o
   | FCreateOCSlice ru _ vs => spec_oc_slice t now ru vs true o
+  | FCreateMaps ru ms => spec_oc_maps t ru ms true o
   end.
 
 (* [rets] = the caller's slice after the call (Save of a slice), [] otherwise *)
@@ -331,6 +383,7 @@ Definition spec_case (t : table) (now : Z) (ch : list cel) (f : fin) (rets : lis
   match f with
   | FCreateOCSlice ru _ vs => spec_oc_slice t now ru vs judge_ra o
   | FSaveSlice vs => spec_slice t vs rets o
+  | FCreateMaps ru ms => spec_oc_maps t ru ms judge_ra o
   | _ => spec_step t now ch f o
   end.
 
@@ -379,9 +432,11 @@ Definition in_domain (ch : list cel) (f : fin) : bool :=
       kv_alone (ch_attrs ch) && kv_alone (ch_assigns ch) && negb (unscoped ic)
       && conds_typed (ch_conds ch ++ ic) && args_typed (ch_attrs ch) && args_typed (ch_assigns ch)
       && conds_dom (ch_conds ch ++ ic) && args_data (ch_attrs ch) && args_data (ch_assigns ch)
-  | FSaveSlice _ | FSaveOmit _ _ | FCreateU _ _ _ | FCreateOCSlice _ _ _
+  | FSaveSlice _ | FSaveOmit _ _ | FCreateU _ _ _ | FCreateOCSlice _ _ _ | FCreateMaps _ _
   | FCSave _ | FCSaveSlice _ | FCCreateOC _ _ | FCFoc _ _ _ _ => false   (* not covered by model_meets_spec; own domains below *)
   end.
+Fixpoint distinct_cols (l : list col) : bool :=
+  match l with [] => true | c :: r => negb (mem_col c r) && distinct_cols r end.
 (* Save of a slice: the non-zero keys are distinct *)
 Definition slice_dom (f : fin) : bool :=
   match f with
@@ -392,6 +447,17 @@ Definition slice_dom (f : fin) : bool :=
   | FCSaveSlice vs => (fix nodup (l : list rec) : bool :=
                          match l with [] => true | v :: r => negb (existsb (same_key v) r) && nodup r end) vs
   | FCreateOCSlice _ _ vs => distinctb (filter (fun k => negb (k =? 0)) (map r_id vs))
+  | FCreateMaps _ ms =>
+      (* at least one map; every map names a column once, with a value of its kind, a key is positive; the
+         keys given are distinct *)
+      nonempty ms
+      && forallb (fun m => forallb typed m && distinct_cols (map fst m)
+                           && forallb (fun p => match fst p, snd p with
+                                                | CId, VInt z => 0 <? z
+                                                | CId, _ => false
+                                                | _, _ => true
+                                                end) m) ms
+      && distinctb (filter (fun k => negb (k =? 0)) (map (fun m => r_id (map_rec m)) ms))
   | _ => false
   end.
 
